@@ -1,4 +1,5 @@
 import Clover.Generated.Facts
+import Clover.Proofs.TotalOrder
 import Clover.Proofs.BulkExact
 import Clover.Spec.Spec
 import Clover.Proofs.RefineBulkAny
@@ -121,6 +122,31 @@ theorem bulk_write_order_independent (u : Upd) (docs : List (Bytes × Doc)) (hs 
 theorem each_selected_document_rewritten_once (u : Upd) (sel : List Doc) (docs docs' : List (Bytes × Doc))
     (hs : Spec.KeysSorted docs) (hnd : (sel.map Doc.objectId).Nodup) (h : Spec.applyAll u docs sel = .ok docs') :
     ∀ d ∈ sel, Spec.lookup d.objectId docs' = u.apply d := applyAll_lookup_sel u sel docs docs' hs hnd h
+
+/-- **Windowed bulk writes through ANY plan** (skip / limit on a sorted selection): when the sort order is total on
+    the matching documents — e.g. `_id` is one of the sort keys (`totalSort_of_id_key`) — the documents selected
+    through an index plan are EXACTLY the specification's, so `Update` / `UpdateFunc` answers what the
+    specification answers (same error or same selection) and leaves the specification's next state.  (With ties under
+    the window the selection is not determined by the property; generated bulk writes with a window carry a total order.) -/
+theorem windowed_update_exact_any_plan (s : Spec.State) (σ : KVS) (hw : WF s) (hr : Rep s σ) (q : Query) (u : Upd)
+    (hdom : BulkDomainW likeFn fnFam s q) :
+    let r := withTx true (Op.body likeFn fnFam (.update q u)) noFault σ
+    let sp := Spec.step likeFn fnFam s (.update q u)
+    r.1 = sp.1 ∧ Rep sp.2 r.2.1 ∧ WF sp.2 :=
+  update_refines_any_plan_window likeFn fnFam s σ hw hr q u hdom
+
+theorem windowed_delete_exact_any_plan (s : Spec.State) (σ : KVS) (hw : WF s) (hr : Rep s σ) (q : Query)
+    (hdom : BulkDomainW likeFn fnFam s q) :
+    let r := withTx true (Op.body likeFn fnFam (.delete q)) noFault σ
+    let sp := Spec.step likeFn fnFam s (.delete q)
+    r.1 = sp.1 ∧ Rep sp.2 r.2.1 ∧ WF sp.2 :=
+  delete_refines_any_plan_window likeFn fnFam s σ hw hr q hdom
+
+/-- `_id` among the sort keys makes the order total on the live documents of a well-formed collection -/
+theorem id_sort_key_makes_order_total (s : Spec.State) (hw : WF s) (q : Query) (coll : Spec.Coll)
+    (hl : Spec.lookup q.coll s = some coll) (hdir : ∀ o ∈ q.sort, o.2 = 1 ∨ o.2 = -1)
+    (hid : ∃ o ∈ q.sort, o.1 = idField) : TotalSort likeFn fnFam q coll :=
+  totalSort_of_id_key_wf likeFn fnFam s hw q coll hl hdir hid
 
 end CV.Props.C03
 
